@@ -494,6 +494,20 @@ pub fn judge_agreement(cx: &DeliveryCtx, out: &mut RunOut, property: &'static st
     judge_component(cx, out, property, clause, &[], true)
 }
 
+/// For a profile in which the *only* things that differ from the accepted baseline are the
+/// component's own spellings and faults (same clock, immediate provider, other components in
+/// canonical spelling): every accept/refuse disagreement with the reference is the component's.
+pub fn judge_isolated(cx: &DeliveryCtx, out: &mut RunOut, property: &'static str, clause: &'static str) {
+    if !finished(cx) || !baseline_ok(cx, out) {
+        return;
+    }
+    match (cx.expected, cx.out) {
+        (Verdict::Accept, ValOut::Err(_)) => out.violate(property, clause, format!("reference accepts, library says {}; {}", cx.out.short(), ctx_line(cx))),
+        (Verdict::Refuse(r), ValOut::Ok(_)) => out.violate(property, clause, format!("reference refuses at {}, library accepts; {}", r.name(), ctx_line(cx))),
+        _ => {}
+    }
+}
+
 pub fn judge_component(cx: &DeliveryCtx, out: &mut RunOut, property: &'static str, clause: &'static str, own: &[Rule], with_signature: bool) {
     if !finished(cx) || !baseline_ok(cx, out) {
         return;
@@ -557,6 +571,7 @@ pub fn judge_c12(cx: &DeliveryCtx, out: &mut RunOut) {
         }
     }
     judge_component(cx, out, "C12", "fold-merges-losslessly-else-body-hashed", &[Rule::BodyCharset, Rule::BodyEncoding], true);
+    judge_isolated(cx, out, "C12", "fold-merges-losslessly-else-body-hashed");
     if baseline_ok(cx, out) {
         judge_canonical(cx, out, &["C12"]);
     }
